@@ -105,11 +105,23 @@ pub fn c18(data: &[u8]) -> Result<(), String> {
     });
     match r {
         Err(p) => Err(format!("parser {}", p.short())),
-        Ok((a, _b, c, _d)) => {
+        Ok((a, b, c, _d)) => {
+            // an accepted DER input must be the documented structure (see checks::c18::structural)
+            if a.is_some() {
+                if let Err(why) = crate::checks::c18::structural(data, true) {
+                    return Err(format!("private key accepted although the input is not the documented structure ({why})"));
+                }
+            }
+            if b.is_some() {
+                if let Err(why) = crate::checks::c18::structural(data, false) {
+                    return Err(format!("public key accepted although the input is not the documented structure ({why})"));
+                }
+            }
             // DER accepted by the DER entry point must be accepted identically by the PEM-or-DER entry point,
-            // unless the bytes also happen to be PEM text
+            // unless the bytes also hold PEM text somewhere
             if let (Some(x), Some(y)) = (a, c) {
-                if x != y && !data.starts_with(b"-----") {
+                // (an input can be both: DER followed by bytes that hold a PEM block - the PEM reading wins then, by design)
+                if x != y && !data.windows(10).any(|w| w == b"-----BEGIN") {
                     return Err("DER private key parses differently through the PEM-or-DER entry point".into());
                 }
             }
